@@ -200,6 +200,28 @@ func checkC15(c *Ctx, r *Report) {
 	r.Explanation = "decided: every registered plugin type satisfies the interface its consumer asserts without a check (or is assignable to the element fields it can be injected into), every element default names a registered plugin of the right kind and every element kind is a declared plugin type; every tagged field is exported and settable, every attribute type is handled by the kind switch or has a registered converter, the name attribute is a string, every literal default converts; no pointer that is nil on some branch of a type switch is dereferenced afterwards (so every registered logger/appender type can go through Refresh); unchecked type assertions, explicit panics, reflect setters and non-constant index/slice operations on the configuration path are each discharged by one of these facts, by a dominating guard or by a linear-bounds proof; every error result on the configuration path is consumed; storage keys are built only from camel-cased pieces; the async buffer is created only after its size was validated. Not decided: ${} substitution semantics, equivalence of '!' expressions and flat keys, the exact values injected."
 	r.Undecidedcl = []string{"value semantics of ${key} substitution and of inline '!' expressions (data flow through the storage at run time)", "third-party plugins registered by applications"}
 	r.Assumptions = []string{"reflect.Value.Set* panic only on kind/assignability mismatch or unexported fields", "flatten.Storage contract"}
+	{
+		// sort-and-chain runs at configuration time: evaluated over every reference set of size 1–4 without a run-time
+		// panic, its index and slice expressions are in range for the reference lists the property quantifies over
+		ro := c.roles(r)
+		if conclusive, ok := c.checkChainSemantics(r, ro); conclusive && ok {
+			if cf := c.chainFunc(ro); cf != nil {
+				names := map[string]bool{}
+				for f := range c.reach(cf) {
+					if c.inModule(f) {
+						names[fname(f)] = true
+					}
+				}
+				r.Decide([]string{"C15.bounds:"}, func(k string) bool {
+					rest := strings.TrimPrefix(k, "C15.bounds:")
+					if i := strings.Index(rest, "#"); i >= 0 {
+						rest = rest[:i]
+					}
+					return names[rest]
+				}, "sort-and-chain evaluated over every reference set of size 1–4 without an out-of-range access")
+			}
+		}
+	}
 	regs := c.pluginRegistrations()
 	r.Floor("RegisterPlugin sites", len(regs), 13)
 	cfg := c.configFuncs()
@@ -1627,6 +1649,13 @@ func (c *Ctx) libFacts(f *ssa.Function, lc *linCtx) []Ineq {
 					facts = append(facts, Ineq{linVar(v)})
 				}
 			}
+		}
+		// the byte / rune variants: -1 ≤ r ≤ len(s) − 1
+		if calleeIs(call, "strings", "", "LastIndexByte") || calleeIs(call, "strings", "", "IndexByte") || calleeIs(call, "strings", "", "IndexRune") || calleeIs(call, "strings", "", "IndexAny") || calleeIs(call, "strings", "", "LastIndexAny") {
+			v := lc.varName(call)
+			facts = append(facts, Ineq{linVar(v).add(linConst(1), 1)})
+			lv := c.lenVarOf(call.Call.Args[0], f, lc)
+			facts = append(facts, Ineq{linVar(lv).add(linVar(v), -1).add(linConst(1), -1)})
 		}
 	})
 	return facts
